@@ -40,6 +40,21 @@ def graphs(nmax):
                   yield dict(n=n, edges=list(edges), main=list(main), layout=layout, roots=roots, all_alias=all_alias)
 
 
+def wide_graphs():
+  """a dozen modules (prefixes and counters with two digits), all sharing one base name or numbered m1..m12: chain, star, tree, all imported by main"""
+  n = 12
+  shared = tuple('d%d/m' % i for i in range(n)); nested = tuple('d%d/e/m' % i for i in range(n)); numbered = tuple('m%d' % (i + 1) for i in range(n))
+  chain = [(i, i + 1) for i in range(n - 1)]; star = [(0, j) for j in range(1, n)]; tree = [(i, j) for i in range(n) for j in (2 * i + 1, 2 * i + 2) if j < n]
+  out = []
+  for layout in (shared, nested, numbered):
+    out.append(dict(n=n, edges=chain, main=[0], layout=layout, roots=1, all_alias=False))
+    out.append(dict(n=n, edges=star, main=[0], layout=layout, roots=1, all_alias=True))
+    out.append(dict(n=n, edges=tree, main=[0, 5], layout=layout, roots=2, all_alias=False))
+    out.append(dict(n=n, edges=[], main=list(range(n)), layout=layout, roots=1, all_alias=True))
+    out.append(dict(n=n, edges=chain[::2], main=list(range(0, n, 2)), layout=layout, roots=1, all_alias=False))
+  return out
+
+
 def module_text(g, i):
   lines = []
   imports = [j for a, j in g['edges'] if a == i]
@@ -210,6 +225,7 @@ def plan(ctx):
   if ctx.thorough: gs = [g for g in gs if g['n'] < 4 or (g['roots'] == 1 and not g['all_alias'])]
   if not ctx.thorough:
     gs = [g for g in gs if g['n'] <= 2 or (not g['all_alias'] and g['roots'] == 1) or g['layout'] == LAYOUTS[3][2]]
+  gs += wide_graphs()
   tasks = [('graphs', sh) for sh in explore.shards(gs, 96)]
   tasks.append(('negative',))
   return tasks
@@ -265,4 +281,4 @@ LEVEL_TEXT = ('Every import graph on a main file and up to three modules (all DA
               'files sharing a base name in different directories) x one or two import roots x alias choices is written to a scratch tree and parsed by both parsers; the parsed rules are compiled and '
               'executed on SQLite and must equal the flattened single-file program (unique names per module) evaluated by the reference model; rule counts show a file reachable along several paths is '
               'included once; the two parsers must build the same rule sets. Eleven negative trees (cycles, undefined / unused imports, redefinition, missing file) must raise ParsingException.')
-LEVEL_NOTE = 'Trusted: reference evaluator, the module generator. Bounded: <=3 modules, fixed module bodies, listed layouts.'
+LEVEL_NOTE = 'Trusted: reference evaluator, the module generator. Bounded: <=3 modules (thorough 4) exhaustively, 15 fixed graphs of 12 modules (chain, star, tree, all-imported; one shared base name, nested, numbered), fixed module bodies, listed layouts.'
